@@ -20,7 +20,8 @@ RULE = {"C08": "generated robot definitions: 1-4 components (own and inherited a
 REQUIRED = {"C08": {"rel:plain": 200, "rel:prefixed": 100, "rel:both": 50, "rel:falsy": 100, "rel:subclass": 50, "rel:bool-for-int": 30,
                     "rel:generic-alias": 30, "rel:preset-class": 50, "rel:preset-init": 50, "rel:private": 50, "rel:component-earlier": 50,
                     "rel:component-later": 50, "rel:absent": 50, "rel:wrong-type": 50, "rel:wrong-type-prefixed": 20, "rel:none": 20, "rel:ctor-param": 50,
-                    "rel:inherited-annotation": 50, "rel:mode-target": 50, "rel:one-class-two-components": 50, "startup-failed-as-expected": 100,
+                    "rel:inherited-annotation": 50, "rel:mode-target": 50, "rel:one-class-two-components": 50, "rel:one-statemachine-class-two-components": 20, "fms-attached-at-startup": 100,
+                    "rel:wrong-type-plain-good-prefixed": 10, "startup-failed-as-expected": 100,
                     "identity-checked-in-setup": 300, "identity-checked-after-init": 300, "untouched-checked": 100}}
 ASSUMPTIONS = {"C08": ["a robot attribute whose value is None is generated only where both readings of 'if there is none' give the same outcome",
                        "when several erroneous attributes are present, any of their error types may surface first"]}
@@ -106,7 +107,7 @@ def gen_case(rng, uid):
         if others:
             rels += ["component", "component"]
         if allow_error:
-            rels += ["absent", "wrong-type", "none", "wrong-type-prefixed"]
+            rels += ["absent", "wrong-type", "none", "wrong-type-prefixed", "wrong-type-plain-good-prefixed"]
         rel = rng.choice(rels)
         a = {"name": name, "ann": ann, "rel": rel}
         if rel == "plain":
@@ -152,6 +153,9 @@ def gen_case(rng, uid):
             place(name, rng.choice(BAD[ann]))
         elif rel == "wrong-type-prefixed":
             place(f"{owner}_{name}", rng.choice(BAD[ann]))
+        elif rel == "wrong-type-plain-good-prefixed":
+            place(name, rng.choice(BAD[ann]))                      # "the very object stored under the same name" is there, mistyped
+            place(f"{owner}_{name}", rng.choice(GOOD[ann]))     # the prefixed one is only looked at "if there is none"
         elif rel == "none":
             place(name, ("lit", None))
         return a
@@ -188,7 +192,8 @@ def gen_case(rng, uid):
         rng.shuffle(flags)
         place(f"{a_}_flag", ("lit", flags[0]))
         place(f"{b_}_flag", ("lit", flags[1]))
-        twin = {"a": a_, "b": b_, "attr": tname, "ann": ann, "flags": {a_: flags[0], b_: flags[1]}, "preset": ["lit", "mine"]}
+        twin = {"a": a_, "b": b_, "attr": tname, "ann": ann, "flags": {a_: flags[0], b_: flags[1]}, "preset": ["lit", "mine"],
+                "state_machine": rng.random() < 0.5}
         comps[b_] = {"attrs": [], "base_attrs": [], "ctor": [], "same_class_as": a_}
         comps[a_] = {"attrs": [], "base_attrs": [], "ctor": []}
     modes = []
@@ -203,7 +208,7 @@ def gen_case(rng, uid):
             if a["rel"] == "component" and order.index(a["name"]) > order.index(cn):
                 a["rel"] = "component-later-ctor"
     split = rng.randrange(0, len(order) + 1)
-    return {"uid": uid, "order": order, "split": split, "components": comps, "robot_attrs": robot_attrs, "modes": modes, "twin": twin}
+    return {"uid": uid, "order": order, "split": split, "components": comps, "robot_attrs": robot_attrs, "modes": modes, "twin": twin, "fms": rng.random() < 0.3}
 
 
 # ----------------------------------------------------------------------------- oracle (from the statement)
@@ -290,9 +295,21 @@ def run_case(acc, case):
                 if flag:
                     self.__dict__[_tw["attr"]] = "mine"
                 log.append(("ctor", "twin", {"flag": flag}))
-            tb = {"__init__": t_init, "execute": lambda self: None, "setup": lambda self: on_setup(self, "twin"),
+            tb = {"__init__": t_init, "setup": lambda self: on_setup(self, "twin"),
                   "__annotations__": {twin["attr"]: twin["ann"]}}
-            _COMP_CLASSES[cn] = type("Ctwin" + cn, (), tb)
+            tbases = ()
+            if twin.get("state_machine"):
+                # both components are instances of one magicbot.StateMachine subclass
+                from magicbot.state_machine import StateMachine, state as sm_state
+
+                def idle_state(self):
+                    pass
+                tb["idle_state"] = sm_state(first=True)(idle_state)
+                tbases = (StateMachine,)
+                acc.ev("rel:one-statemachine-class-two-components")
+            else:
+                tb["execute"] = lambda self: None
+            _COMP_CLASSES[cn] = type("Ctwin" + cn, tbases, tb)
             continue
         body = {}
         base_body = {}
@@ -332,10 +349,10 @@ def run_case(acc, case):
         if c.get("same_class_as"):
             continue
         cls = _COMP_CLASSES[cn]
-        cls.__annotations__ = {k: ann_of(v) for k, v in cls.__annotations__.items()}
+        cls.__annotations__ = {k: (ann_of(v) if isinstance(v, str) else v) for k, v in cls.__dict__.get("__annotations__", {}).items()}
         for b in cls.__bases__:
-            if b is not object and "__annotations__" in b.__dict__:
-                b.__annotations__ = {k: ann_of(v) for k, v in b.__annotations__.items()}
+            if b.__name__.startswith("B") and "__annotations__" in b.__dict__:      # the generated base classes only
+                b.__annotations__ = {k: (ann_of(v) if isinstance(v, str) else v) for k, v in b.__annotations__.items()}
         if c["ctor"]:
             real_init = cls.__init__
             params = ", ".join(a["name"] for a in c["ctor"])
@@ -371,6 +388,14 @@ def run_case(acc, case):
         write_modes(case, root)
         hs.resetGlobalHandles()
         DriverStationSim.resetData()
+        if case.get("fms"):
+            # a field connection at start-up must not turn a missing / mistyped dependency into a running robot
+            import wpilib
+            DriverStationSim.setFmsAttached(True)
+            DriverStationSim.setDsAttached(True)
+            DriverStationSim.notifyNewData()
+            wpilib.DriverStation.refreshData()
+            acc.ev("fms-attached-at-startup")
         robot = R1()
         STATE["robot"] = robot
         try:
